@@ -1579,7 +1579,9 @@ def select__for_each(self: XPathFunction, context: ta.ContextType = None) \
         context = self.context
 
     func = self[1][1] if self[1].symbol == ':' else self[1]
-    if not isinstance(func, XPathFunction):
+    if not isinstance(func, XPathFunction) or \
+            func.symbol != 'function' and not func.is_reference():
+        # an expression that evaluates to a function item (also a function call)
         func = self.get_argument(context, index=1, cls=XPathFunction, required=True)
     assert isinstance(func, XPathFunction)
 
@@ -1596,7 +1598,9 @@ def select__for_each(self: XPathFunction, context: ta.ContextType = None) \
 def select__filter(self: XPathFunction, context: ta.ContextType = None)\
         -> Iterator[ta.ItemType]:
     func = self[1][1] if self[1].symbol == ':' else self[1]
-    if not isinstance(func, XPathFunction):
+    if not isinstance(func, XPathFunction) or \
+            func.symbol != 'function' and not func.is_reference():
+        # an expression that evaluates to a function item (also a function call)
         func = self.get_argument(context, index=1, cls=XPathFunction, required=True)
     assert isinstance(func, XPathFunction)
 
@@ -1617,7 +1621,9 @@ def select__filter(self: XPathFunction, context: ta.ContextType = None)\
 def select__fold_left(self: XPathFunction, context: ta.ContextType = None) \
         -> Iterator[ta.ItemType]:
     func = self[2][1] if self[2].symbol == ':' else self[2]
-    if not isinstance(func, XPathFunction):
+    if not isinstance(func, XPathFunction) or \
+            func.symbol != 'function' and not func.is_reference():
+        # an expression that evaluates to a function item (also a function call)
         func = self.get_argument(context, index=2, cls=XPathFunction, required=True)
     assert isinstance(func, XPathFunction)
 
@@ -1642,7 +1648,9 @@ def select__fold_left(self: XPathFunction, context: ta.ContextType = None) \
 def select__fold_right(self: XPathFunction, context: ta.ContextType = None) \
         -> Iterator[ta.ItemType]:
     func = self[2][1] if self[2].symbol == ':' else self[2]
-    if not isinstance(func, XPathFunction):
+    if not isinstance(func, XPathFunction) or \
+            func.symbol != 'function' and not func.is_reference():
+        # an expression that evaluates to a function item (also a function call)
         func = self.get_argument(context, index=2, cls=XPathFunction, required=True)
     assert isinstance(func, XPathFunction)
 
@@ -1669,7 +1677,9 @@ def select__fold_right(self: XPathFunction, context: ta.ContextType = None) \
 def select__for_each_pair(self: XPathFunction, context: ta.ContextType = None) \
         -> Iterator[ta.ItemType]:
     func = self[2][1] if self[2].symbol == ':' else self[2]
-    if not isinstance(func, XPathFunction):
+    if not isinstance(func, XPathFunction) or \
+            func.symbol != 'function' and not func.is_reference():
+        # an expression that evaluates to a function item (also a function call)
         func = self.get_argument(context, index=2, cls=XPathFunction, required=True)
 
     if not isinstance(func, XPathFunction):
